@@ -163,15 +163,26 @@ def run(chk):
 
     # ---- the model-free oracle alone on many more outputs (no model evaluation: cheap), as the search for a failing input
     nextra = 12000 if tier == "quick" else 150000
+    used = {}          # one long-lived adapter object per (adapter, include_faulty): what an executor that keeps its adapters would use
+    prev = {}
     for i in range(nextra):
         which = i % 7
         text, marker = gen_text(rng, which)
         for faulty in (False, True):
-            res = A.parse_impl(which, faulty, text)
+            inv = 3 + (i // 7) % 3
+            res = A.parse_impl(which, faulty, text, invocation=inv)
             case = dict(adapter=A.NAMES[which], include_faulty=faulty, output=text)
+            key = (which, faulty)
+            if key not in used:
+                used[key] = A.new_adapter(which, faulty)
+            again = A.parse_impl(which, faulty, text, invocation=inv, instance=used[key])
+            if again != res:
+                chk.violation("C12 what an adapter returns for an output does not depend on the outputs the same adapter object parsed before",
+                              dict(case, invocation=inv, parsed_before=prev.get(key)), res, again)
+            prev[key] = text
             if res[0] == "crash":
                 chk.violation("C12 no exception other than a reject", case, "reject or data points", res[1])
-            bad = A.wellformed(res)
+            bad = A.wellformed(res, invocation=inv)
             if bad:
                 chk.violation("C12 well-formed data points", case, "exactly one total, last; iterations 1..k; invocation stamp", bad)
             if marker_oracle(which, text, faulty) and res[0] == "ok":
